@@ -121,6 +121,16 @@ def make_case(args):
     depth = rng.choice([None, None, 5.0, 30.0, 200.0])
     tail = rng.random() < 0.8
     # ---------------- implementation
+    import zlib
+    hsh = zlib.crc32(np.ascontiguousarray(da.values).tobytes())
+    if hsh % 3 == 0:
+        # the object has a history: the same Python object held other axes / other energy when its accessor first served these
+        # calls and was then edited in place (coords[...] = / ds["efth"] = ) into what it holds now (gen.primed)
+        def _prime(o):
+            for nm in ("hs", "tm01", "tm02", "swe", "goda", "oned", "mss") + (() if oned else ("dm", "dspr", "uss")):
+                getattr(o.spec, nm)()
+        obj = gen.primed(obj, _prime, variant=(hsh // 3) % 3 if use_ds else 0)
+        da = obj["efth"] if use_ds else obj
     sp = obj.spec
     impl = {}
     if rng.random() < 0.2:
